@@ -751,12 +751,36 @@ fn aliasing_font() -> FontInfo {
     FontInfo { path, data, chars, has_layout: false, has_morx: false, has_kern: false, scripts: vec![] }
 }
 
+/// A generated font whose GSUB doubles glyph 1 fourteen times: every text containing its first character
+/// runs into the per-call length limit max(64 n, 16384), so where the expansion stops shows whether the
+/// limit depends on anything but the current text (e.g. on the storage an earlier use left behind).
+fn limit_font() -> FontInfo {
+    use crate::fontgen::*;
+    let mut spec = FontSpec::basic(4);
+    let lookups: Vec<Lookup<SubstSubtable>> = (0..14)
+        .map(|_| Lookup::one(SubstSubtable::Multiple { coverage: Coverage::Glyphs(vec![1]), sequences: vec![vec![1, 1]] }))
+        .collect();
+    spec.gsub = Some(Layout::single_feature(*b"ccmp", lookups));
+    let data = build(&spec);
+    let mut path = "generated:limit".to_string();
+    if let Ok(dir) = std::env::var("RBV_DUMP_DIR") {
+        let p = format!("{}/generated-limit.ttf", dir);
+        let _ = std::fs::create_dir_all(&dir);
+        if std::fs::write(&p, &data).is_ok() {
+            path = p;
+        }
+    }
+    let chars: Vec<u32> = spec.cmap.iter().map(|x| x.0).collect();
+    FontInfo { path, data, chars, has_layout: true, has_morx: false, has_kern: false, scripts: vec![] }
+}
+
 fn c05(r: &mut Rng, fonts: &[FontInfo], n: u64, tr: &mut Option<std::fs::File>) {
     let mut cnt = Counters::default();
     let alias = aliasing_font();
+    let limit = limit_font();
     // (a) histories on one recycled buffer vs fresh buffers
     for i in 0..n {
-        let fi = if i % 4 == 3 { &alias } else { &fonts[r.below(fonts.len() as u64) as usize] };
+        let fi = if i % 4 == 3 { &alias } else if i % 8 == 1 { &limit } else { &fonts[r.below(fonts.len() as u64) as usize] };
         let Some(face) = Face::from_slice(&fi.data, 0) else { continue };
         let steps = r.range(2, 6);
         let mut reqs: Vec<Req> = Vec::new();
@@ -1063,6 +1087,19 @@ fn c01gen(tr: &mut Option<std::fs::File>) {
         lookups.push(Lookup::one(SubstSubtable::Single2 { coverage: Coverage::Glyphs(vec![1]), substitutes: vec![2] }));
         f.gsub = Some(Layout::single_feature_top(*b"ccmp", 1, lookups));
         run_case("deep-nesting", &f, Req { text: text_of(50, &[pua(0)]), flags: 3, ..Default::default() }, &mut cnt, tr);
+    }
+    // 3b. fan-out tower: 10 nested context lookups, each calling the next through 64 lookup records
+    //     (64^10 nested calls unless the operation budget stops them)
+    {
+        let mut f = FontSpec::basic(4);
+        let mut lookups: Vec<Lookup<SubstSubtable>> = Vec::new();
+        for k in 0..10u16 {
+            let recs: Vec<SeqLookup> = (0..64).map(|_| SeqLookup { sequence_index: 0, lookup_index: k + 1 }).collect();
+            lookups.push(Lookup::one(SubstSubtable::Context3 { coverages: vec![Coverage::Glyphs(vec![1])], lookups: recs }));
+        }
+        lookups.push(Lookup::one(SubstSubtable::Single2 { coverage: Coverage::Glyphs(vec![3]), substitutes: vec![2] }));
+        f.gsub = Some(Layout::single_feature_top(*b"ccmp", 1, lookups));
+        run_case("fan-out-tower", &f, Req { text: text_of(4, &[pua(0)]), flags: 3, ..Default::default() }, &mut cnt, tr);
     }
     // 4. cursive chain with the RightToLeft flag (child precedes parent): very long text
     {
